@@ -285,10 +285,20 @@ func (m *Monitors) checkVote(n *SimNode, b *hotstuff.Block, ctx string) {
 		m.report("C03", "voted for a block not proposed by the leader of its view", fmt.Sprintf("%s: view-%d block proposed by %d, leader is %d", ctx, view, b.Proposer(), leader))
 	}
 	if b.Proposer() != n.ID {
-		if w.cur.msg == nil {
-			m.report("C03", "voted outside the handling of a proposal", ctx)
-		} else if pm, ok := w.cur.msg.Payload.(hotstuff.ProposeMsg); ok && pm.ID != leader && !deferredProposal(w, n, b) {
-			m.report("C03", "voted for a proposal that did not come from the leader", fmt.Sprintf("%s: proposal sent by %d, leader of view %d is %d", ctx, pm.ID, view, leader))
+		// the proposal for this block must have been sent to this replica by the leader of its view
+		// (it may have been handled earlier and deferred until a view change)
+		fromLeader, fromOther := false, hotstuff.ID(0)
+		for i := range w.Sent {
+			if pm, ok := w.Sent[i].Payload.(hotstuff.ProposeMsg); ok && w.Sent[i].To == slot && pm.Block.Hash() == b.Hash() {
+				if pm.ID == leader {
+					fromLeader = true
+				} else {
+					fromOther = pm.ID
+				}
+			}
+		}
+		if !fromLeader {
+			m.report("C03", "voted for a proposal that did not come from the leader", fmt.Sprintf("%s: proposal for the view-%d block was sent by %d, leader of that view is %d", ctx, view, fromOther, leader))
 		}
 	}
 	qc := b.QuorumCert()
@@ -303,8 +313,6 @@ func (m *Monitors) checkVote(n *SimNode, b *hotstuff.Block, ctx string) {
 	}
 }
 
-// deferredProposal: the vote is for a proposal that was received earlier and delayed until a view change.
-func deferredProposal(_ *World, _ *SimNode, _ *hotstuff.Block) bool { return true }
 
 // checkExec: the application digest is explained by executing the committed chain's commands in
 // order exactly once; replicas are prefix-related.
